@@ -1,4 +1,5 @@
 import MithrilModel.CertModel
+import MithrilModel.PmInj
 /-!
 # C04 — Certificates are tamper-evident and survive the wire unchanged
 
@@ -178,6 +179,26 @@ theorem C04_pm_single_value (pm pm' : List (Bytes × Bytes)) (i : Nat) (hl : pm.
   rcases hexH_eq H _ _ hh with hp | hc
   · exact Or.inl (segs_single _ _ i (by rw [pmSegs_length, pmSegs_length, hl]) hagree hp)
   · exact Or.inr hc
+
+/-- **two protocol messages built from well-formed part values have the same digest only if they are
+equal** (second sentence of the property): the digest pre-image `k₁v₁…kₙvₙ` (no separators) parses uniquely
+when the keys come from the table of twelve part names and the values are over `[0-9a-f]*` (hex digests,
+decimal numbers, hex-encoded keys) — `PmInj.preimage_injective`, by a lexer that is proved to invert the
+encoder. Holds for any order and multiplicity of the parts; `Hc` is the digest function on the text. -/
+theorem C04_pm_digest_injective {β : Type} (Hc : List Char → β)
+    (m m' : List (List Char × List Char)) (h : PmInj.WF m) (h' : PmInj.WF m')
+    (he : Hc (PmInj.pre m) = Hc (PmInj.pre m')) :
+    m = m' ∨ ∃ x y : List Char, x ≠ y ∧ Hc x = Hc y := by
+  by_cases hp : PmInj.pre m = PmInj.pre m'
+  · exact Or.inl (PmInj.preimage_injective m m' h h' hp)
+  · exact Or.inr ⟨_, _, hp, he⟩
+
+/-- non-vacuity of the grammar: a message with a digest, a number and the prefix-pair keys is well formed -/
+example : PmInj.WF [("snapshot_digest".toList, "00ab".toList), ("next_aggregate_verification_key".toList, "7b22".toList),
+    ("next_aggregate_verification_key_snark".toList, "".toList), ("current_epoch".toList, "42".toList)] := by
+  intro kv hkv
+  simp only [List.mem_cons, List.mem_nil_iff, or_false] at hkv
+  rcases hkv with rfl | rfl | rfl | rfl <;> exact ⟨by decide, by decide⟩
 
 /-- non-vacuity: the hypotheses of the epoch statement are met by a concrete certificate -/
 example : (7 : Nat) < 2^64 ∧ (8 : Nat) < 2^64 := by decide
